@@ -94,6 +94,13 @@ MkText(s, safe) == [t |-> "str", v |-> s, safe |-> safe]
 IsSafe(v) == v.t = "str" /\ v.safe
 \* the text an argument contributes to a Markup result (escaped unless safe)
 EscArg(v, cfg) == IF cfg.autoescape /\ ~IsSafe(v) THEN Escape(ToStr(v)) ELSE ToStr(v)
+\* a value as the text a string filter works on (filter.py: string_filter - Markup is kept)
+AsText(v) == IF v.t = "str" THEN v ELSE Str(ToStr(v))
+\* markupsafe's algebra: concatenating with a Markup value gives Markup, the other side escaped
+TextCat(a, b, ae) ==
+  IF ae /\ (a.safe \/ b.safe)
+  THEN MkText((IF a.safe THEN a.v ELSE Escape(a.v)) \o (IF b.safe THEN b.v ELSE Escape(b.v)), TRUE)
+  ELSE Str(a.v \o b.v)
 
 AllScalars(s) == \A i \in DOMAIN s : s[i].t \in {"str", "int"}
 Homogeneous(s) == (\A i \in DOMAIN s : s[i].t = "str") \/ (\A i \in DOMAIN s : s[i].t = "int")
@@ -151,10 +158,8 @@ Apply(name, left, args, cfg) ==
       a2 == Arg(args, 2, Undef)
       seq == SeqOf(left)
   IN
-  CASE name = "append"  -> IF Len(args) # 1 THEN Err("LiquidTypeError")
-                           ELSE IF lsafe THEN MkText(ls \o EscArg(a1, cfg), TRUE) ELSE Str(ls \o ToStr(a1))
-    [] name = "prepend" -> IF Len(args) # 1 THEN Err("LiquidTypeError")
-                           ELSE Str(ToStr(a1) \o ls)   \* prepend builds a plain str
+  CASE name = "append"  -> IF Len(args) # 1 THEN Err("LiquidTypeError") ELSE TextCat(AsText(left), AsText(a1), ae)
+    [] name = "prepend" -> IF Len(args) # 1 THEN Err("LiquidTypeError") ELSE TextCat(AsText(a1), AsText(left), ae)
     [] name = "upcase"     -> IF Len(args) # 0 THEN Err("LiquidTypeError") ELSE MkText(UpCase(ls), lsafe)
     [] name = "downcase"   -> IF Len(args) # 0 THEN Err("LiquidTypeError") ELSE MkText(DownCase(ls), lsafe)
     [] name = "capitalize" -> IF Len(args) # 0 THEN Err("LiquidTypeError") ELSE MkText(Capitalize(ls), lsafe)
@@ -172,19 +177,22 @@ Apply(name, left, args, cfg) ==
                 [] OTHER -> IntV(0))
     [] name \in {"replace", "replace_first"} ->
          IF Len(args) \notin {1, 2} THEN Err("LiquidTypeError")
+         \* Markup.replace escapes the replacement (unless Markup) and stays Markup
          ELSE LET old == ToStr(a1)
-                  new == IF Len(args) = 2 THEN ToStr(a2) ELSE ""
+                  new == IF Len(args) = 2 THEN (IF lsafe THEN EscArg(a2, cfg) ELSE ToStr(a2)) ELSE ""
                   r == IF name = "replace" THEN ReplaceAll(ls, old, new) ELSE ReplaceFirst(ls, old, new)
-              IN Str(r)
+              IN MkText(r, lsafe)
     [] name \in {"remove", "remove_first"} ->
          IF Len(args) # 1 THEN Err("LiquidTypeError")
-         ELSE Str(IF name = "remove" THEN ReplaceAll(ls, ToStr(a1), "") ELSE ReplaceFirst(ls, ToStr(a1), ""))
+         ELSE LET old == ToStr(a1) IN
+              MkText(IF name = "remove" THEN ReplaceAll(ls, old, "") ELSE ReplaceFirst(ls, old, ""), lsafe)
     [] name = "split" ->
          IF Len(args) # 1 THEN Err("LiquidTypeError")
          ELSE LET sep == ToStr(a1) IN
               IF ~Truthy(a1) \/ sep = "" THEN Arr([i \in 1..Len(ls) |-> Str(Ch(ls, i))])
               ELSE IF ls = "" \/ ls = sep THEN Arr(<<>>)
-              ELSE LET parts == SplitStr(ls, sep) IN Arr([i \in DOMAIN parts |-> Str(parts[i])])
+              \* Markup.split: the pieces stay Markup, the separator is taken as it is
+              ELSE LET parts == SplitStr(ls, sep) IN Arr([i \in DOMAIN parts |-> MkText(parts[i], lsafe)])
     [] name = "first" ->
          IF Len(args) # 0 THEN Err("LiquidTypeError")
          ELSE (CASE left.t = "arr" -> IF left.v = <<>> THEN Nil ELSE left.v[1]
@@ -200,11 +208,11 @@ Apply(name, left, args, cfg) ==
          IF Len(args) > 1 THEN Err("LiquidTypeError")
          ELSE IF \E i \in DOMAIN seq : Unprintable(seq[i]) THEN Err("UNSPEC")
          ELSE LET sepv == IF Len(args) = 1 THEN a1 ELSE Str(" ")
-              IN IF ae
-                 THEN \* Markup result: every piece and the separator are escaped unless safe
-                      MkText(JoinStr([i \in DOMAIN seq |-> EscArg(seq[i], cfg)],
-                                   IF Len(args) = 1 THEN EscArg(sepv, cfg) ELSE " "), TRUE)
-                 ELSE Str(JoinStr([i \in DOMAIN seq |-> ToStr(seq[i])], ToStr(sepv)))
+              IN IF ae /\ (Len(args) = 0 \/ IsSafe(sepv))
+                 THEN \* a Markup separator (a literal, the default): Markup.join escapes every piece unless safe
+                      MkText(JoinStr([i \in DOMAIN seq |-> EscArg(seq[i], cfg)], ToStr(sepv)), TRUE)
+                 ELSE \* a plain separator: str.join, a plain string (escaped as a whole on output)
+                      Str(JoinStr([i \in DOMAIN seq |-> ToStr(seq[i])], ToStr(sepv)))
     [] name = "default" ->
          IF Len(args) > 1 THEN Err("LiquidTypeError")
          ELSE LET d == IF Len(args) = 1 THEN a1 ELSE Str("") IN
@@ -215,7 +223,9 @@ Apply(name, left, args, cfg) ==
          ELSE IF Len(args) >= 1 /\ a1.t \notin {"int"} THEN Err("LiquidTypeError")   \* only ints modelled
          ELSE LET n == IF Len(args) >= 1 THEN a1.n ELSE 50
                   end == IF Len(args) = 2 THEN ToStr(a2) ELSE "..."
-              IN IF n < 0 THEN Err("UNSPEC") ELSE Str(Truncate(ls, n, end))
+              \* short enough: the value itself; otherwise an f-string, which is a plain str even for Markup
+              IN IF n < 0 THEN Err("UNSPEC")
+                 ELSE IF Len(ls) <= n THEN AsText(left) ELSE Str(Truncate(ls, n, end))
     [] name = "reverse" -> IF Len(args) # 0 THEN Err("LiquidTypeError") ELSE Arr(Reverse(seq))
     [] name = "compact" ->
          IF Len(args) = 0 THEN Arr(SelectSeq(seq, LAMBDA x : x.t \notin {"nil", "undef"}))
